@@ -184,6 +184,9 @@ type c30Case struct {
 	// Resume: clients holding a certificate keep a TLS session cache (one per identity) over all their connections of
 	// the case, so that later connections offer the session tickets earlier ones were given
 	Resume bool `json:"resume,omitempty"`
+	// Tighten: after the first round ClientAuth is raised to RequireAndVerifyClientCert at runtime and a new listener
+	// started (only in cases with the CA configured and without a CA swap)
+	Tighten bool `json:"tighten,omitempty"`
 }
 
 // (indices 5..8: values that name no TLS version - SSL 3.0, 1, just below TLS 1.0, just above TLS 1.3; clients only use 1..4)
@@ -192,7 +195,7 @@ var c30Versions = []uint16{0, tls.VersionTLS10, tls.VersionTLS11, tls.VersionTLS
 func genC30(t *rapid.T) c30Case {
 	c := c30Case{MinV: rapid.IntRange(0, 4).Draw(t, "min"), MaxV: rapid.IntRange(0, 4).Draw(t, "max"), ClientAuth: rapid.IntRange(0, 4).Draw(t, "auth"),
 		CA: pick(t, "ca", 0, 1, 1, 1, 2), Ciphers: rapid.IntRange(0, 3).Draw(t, "ciphers"), Rotate: rapid.IntRange(0, 2).Draw(t, "rotate") == 0,
-		PreUpdate: pick(t, "preupdate", "", "", "export", "export2", "tuning"), SwapCA: rapid.IntRange(0, 2).Draw(t, "swapca") == 0, Resume: rapid.Bool().Draw(t, "resume")}
+		PreUpdate: pick(t, "preupdate", "", "", "export", "export2", "tuning"), SwapCA: rapid.IntRange(0, 2).Draw(t, "swapca") == 0, Resume: rapid.Bool().Draw(t, "resume"), Tighten: rapid.IntRange(0, 2).Draw(t, "tighten") == 0}
 	if rapid.IntRange(0, 4).Draw(t, "oddmin") == 0 {
 		c.MinV = rapid.IntRange(5, 8).Draw(t, "oddminv")
 	}
@@ -377,6 +380,41 @@ func runC30(tb stat.TB, c c30Case) {
 					p2 := *p
 					p2.goodClient = p.foreignClient
 					p = &p2
+				}
+			}
+		}
+	}
+	if c.Tighten && c.CA == 1 && c.ClientAuth < int(tls.RequireAndVerifyClientCert) && !(c.SwapCA && c.ClientAuth >= int(tls.VerifyClientCertIfGiven)) {
+		// Client certificates become required and verified at runtime (GetExportOptions, ClientAuth raised, UpdateExportOptions,
+		// new listener): from then on only a client presenting a certificate of the configured CA is served.
+		o := n.GetExportOptions()
+		if o.TLS != nil {
+			o.TLS.ClientAuth = tls.RequireAndVerifyClientCert
+			if err := n.UpdateExportOptions(o); err == nil {
+				srv.Stop()
+				srv3, err := absnfs.NewServer(absnfs.ServerOptions{Port: 0, Hostname: "127.0.0.1", UseRecordMarking: true})
+				if err != nil {
+					tb.Fatalf("harness: %v", err)
+				}
+				srv3.SetHandler(n)
+				if err := srv3.Listen(); err == nil {
+					defer srv3.Stop()
+					addr = fmt.Sprintf("127.0.0.1:%d", srv3.GetPort())
+					srv = srv3
+					vers := uint16(tls.VersionTLS13)
+					if c30Versions[c.MaxV] != 0 && c30Versions[c.MaxV] < tls.VersionTLS13 {
+						vers = tls.VersionTLS12
+					}
+					nt = true
+					for _, kind := range []int{0, 2, 3} {
+						if ok, _, _ := c30Null(addr, p, c30Client{Vers: vers, Cert: kind}); ok {
+							if stat.Violate(tb, id, check, "unverified-client-certificate-accepted", c, "%s: after ClientAuth was raised to RequireAndVerifyClientCert at runtime (GetExportOptions / UpdateExportOptions, new listener) a client presenting certificate kind %d (0 none, 2 self-signed, 3 foreign CA) is served", what, kind) {
+								return
+							}
+						}
+					}
+					stat.Label("client_auth_tightened_at_runtime", 1)
+					c.ClientAuth = int(tls.RequireAndVerifyClientCert)
 				}
 			}
 		}
